@@ -87,6 +87,18 @@ class Case:
                 o.value.insert(0, x)
                 y = o.value.pop()
                 o.value.insert(0, y)
+                # deleting the last position and putting the element back (if the deletion took effect at all)
+                n, last = len(o.value), o.value[-1]
+                del o.value[-1]
+                if len(o.value) < n:
+                    o.value.add(last)
+            elif isinstance(o, model.SubmodelElementCollection) and len(o.value) >= 1:
+                # removing an element that merely LOOKS like a member (same idShort, another object) is refused
+                member = next(iter(o.value))
+                try:
+                    o.value.remove(model.Capability(member.id_short))
+                except KeyError:
+                    pass
 
     def provider(self, stores=None):
         from basyx.aas import model
